@@ -2,6 +2,7 @@ import Drv.Common
 import Drv.Args
 import Drv.Store
 import Drv.Pipeline
+import Drv.Scope
 open Lean
 
 def handle (line : String) : String :=
@@ -23,6 +24,7 @@ def handle (line : String) : String :=
       | "history" => Drv.opHistory j
       | "argctx" => Drv.opArgCtx j
       | "leafsig" => Drv.opLeafSig j
+      | "scope" => Drv.opScope j
       | _ => .error s!"unknown op {op}"
     match r with
     | .ok o => o.compress
